@@ -521,20 +521,24 @@ fn judge(o: &mut Outcome, s: &Script, r: &ScriptOut) {
 }
 
 /// The control connection's pager: metadata fetch whose system tables span several pages (page size 1024).
-async fn control_connection_pager(o: &mut Outcome, n_keyspaces: usize) {
+async fn control_connection_pager(o: &mut Outcome, n_keyspaces: usize, awkward: bool) {
     let mut spec = single_node_spec();
     for i in 0..n_keyspaces {
         spec.keyspaces.push(KeyspaceDef::simple(&format!("ks_{i:05}"), 1).with_table(TableDef::new("t", &[("pk", "int")], &[("v", "text")])));
     }
     let want: std::collections::BTreeSet<String> = spec.keyspaces.iter().map(|k| k.name.clone()).collect();
     let cluster = MockCluster::start(spec, Arc::new(DefaultHandler)).await;
+    if awkward {
+        // pages shorter than asked for; empty pages that still carry a paging state (also the first one)
+        cluster.awkward_system_paging();
+    }
     match connect(&cluster, |b| b).await {
         Err(e) => o.inconclusive(format!("control-connection pager case could not start: {e}")),
         Ok(session) => {
             let st = session.get_cluster_state();
             let got: std::collections::BTreeSet<String> = st.keyspaces_iter().map(|(k, _)| k.to_string()).collect();
             o.case(fw::hash64(format!("cc:{n_keyspaces}").as_bytes()), true);
-            o.class("pager:control-connection");
+            o.class(if awkward { "pager:control-connection:empty-pages-with-paging-state" } else { "pager:control-connection" });
             if got != want {
                 let missing: Vec<_> = want.difference(&got).take(5).cloned().collect();
                 let extra: Vec<_> = got.difference(&want).take(5).cloned().collect();
@@ -862,7 +866,8 @@ pub fn run(ctx: &Ctx) -> Outcome {
             }
         }
     }
-    rt.block_on(control_connection_pager(&mut out, if ctx.quick() { 1500 } else { 5200 }));
+    rt.block_on(control_connection_pager(&mut out, if ctx.quick() { 1500 } else { 5200 }, false));
+    rt.block_on(control_connection_pager(&mut out, if ctx.quick() { 1300 } else { 4100 }, true));
     for c in [
         "fault:RetryableError",
         "fault:NonRetriedError",
@@ -878,6 +883,7 @@ pub fn run(ctx: &Ctx) -> Outcome {
         "pager:execute_iter",
         "pager:query_iter",
         "pager:control-connection",
+        "pager:control-connection:empty-pages-with-paging-state",
         "consumer:slow",
         "consumer:early-drop",
         "page:empty",
